@@ -756,6 +756,372 @@ def direction_b(ck, dev, judge):
         ck.extra["corrupted_xml_trace_rejected"] = True
 
 
+# ================================================================================================ extended coverage
+# HTMLConverter, HOCRConverter, TagExtractor: outside the statement of C11.  Discrepancies are notes and counters in
+# evidence (extended_coverage), never violations.
+MARKUP_SPEC = os.path.join(SPECS, "conv", "MC_Markup.tla")
+MARKUP_TRACE_SPEC = os.path.join(SPECS, "conv", "MarkupTrace.tla")
+TAG_SPEC = os.path.join(SPECS, "conv", "MC_TagExtract.tla")
+MARKUP_ACTIONS = ["AGrow", "AStart", "ABegin", "AEnter", "AExit", "AClose"]
+# (label, Kinds, MaxNodes, Strings, Convs, Modes)
+MARKUP_CONFIGS = {
+    "quick": [("markup", "HocrKinds", 4, "MPaletteQuick", "BothConvs", "AllModes")],
+    "thorough": [("markup", "HtmlKinds", 5, "MPalette", "BothConvs", "AllModes"), ("markup-strings", "FlatKinds", 3, "MStr2", "BothConvs", "NormalMode")],
+}
+
+
+def ext(ck, key, n=1):
+    d = ck.extra.setdefault("extended_coverage", {})
+    d[key] = d.get(key, 0) + n
+
+
+def ext_note(ck, seen, key, text):
+    if key not in seen:
+        seen.add(key)
+        ck.note("extended coverage (%s): %s" % (key, text))
+
+
+def classify_markup(ck, seen, area, real, model_of, devs, what):
+    """real output vs the intended model, the as-coded model and each deviation alone -> counters"""
+    if real == model_of(set()):
+        return "intended"
+    hit = [d for d in devs if real == model_of({d})]
+    if not hit and real == model_of(set(devs)):
+        hit = [d for d in devs if model_of({d}) != model_of(set())] or ["combination"]
+    if hit:
+        for d in hit:
+            ext(ck, "%s:%s" % (area, d))
+            ext_note(ck, seen, "%s:%s" % (area, d), "%s: the code writes %r, the intended design %r"
+                     % (what, _first_diff(real, model_of(set()))[0][:160], _first_diff(real, model_of(set()))[1][:160]))
+        return "coded"
+    ext(ck, area + ":unexplained")
+    a, b = _first_diff(real, model_of(set(devs)))
+    ext_note(ck, seen, area + ":unexplained", "%s: output explained by neither model: real ..%r, as-coded model ..%r" % (what, a[:160], b[:160]))
+    return "unexplained"
+
+
+def _first_diff(a, b):
+    k = next((q for q in range(min(len(a), len(b))) if a[q] != b[q]), min(len(a), len(b)))
+    k = max(0, k - 30)
+    return a[k:k + 200], b[k:k + 200]
+
+
+def markup_predicates(ck, conv, mode, real, Treal):
+    """the independent readers on the real output"""
+    from ..realise import markup_real as M
+    want = M.nospace(M.glyph_text(Treal, conv, mode))
+    if conv == "html":
+        bad, text = M.read_html(real)
+        if bad:
+            ext(ck, "html:not-well-formed")
+        # the fixed texts the converter adds itself: "Page n" anchors and the footer's "Page: 1, 2"
+        elif want not in M.nospace(text):
+            ext(ck, "html:glyph-text-missing")
+    else:
+        bad, text, nest = M.read_hocr(real)
+        if bad:
+            ext(ck, "hocr:not-well-formed")
+        elif M.hocr_domain(Treal):
+            if M.nospace(text) != want:
+                ext(ck, "hocr:glyph-text-differs")
+            if nest:
+                ext(ck, "hocr:nesting")
+
+
+def direction_markup(ck, seen):
+    from ..realise import markup_real as M
+    devs_all = M.MARKUP_DEVS
+    n_replayed = 0
+    for (label, kinds, maxn, strings, convs, modes) in MARKUP_CONFIGS[ck.tier]:
+        mod = "RunM_" + label.replace("-", "_")
+        wrapper = os.path.join(ck.tmp, mod + ".tla")
+        with open(wrapper, "w") as f:
+            f.write('---- MODULE %s ----\nEXTENDS MC_Markup\nTheDevs == {{}, %s}\nMPaletteQuick == {<<cLT, cAMP>>, <<cQUOT, cPLUS, cAPOS>>, <<cPLAIN, cSP, cPLAIN>>}\n====\n'
+                    % (mod, tla_set(devs_all)))
+        cfg = write_cfg(os.path.join(ck.tmp, mod + ".cfg"),
+                        constants={"MaxNodes": maxn, "Strings": "<- " + strings, "Kinds": "<- " + kinds, "DevChoices": "<- TheDevs",
+                                   "Convs": "<- " + convs, "Modes": "<- " + modes, "ParseOutput": "TRUE"},
+                        invariants=["WellFormedML", "TextFaithful", "HocrNesting", "FontStackDepth"], constraints=["EmitTerminal"])
+        emit = os.path.join(ck.tmp, mod + ".ndjson")
+        res = run_tlc(wrapper, cfg, emit=emit, coverage=False, timeout=3600, lib=os.path.join(SPECS, "conv"), env=JVM)
+        ck.add_tlc(res, "MarkupConverters %s: %s, <= %d nodes, %s" % (label, kinds, maxn, strings))
+        if not res.ok:
+            raise MachineryError("MarkupConverters.tla violates %s on the intended design:\n%s" % (res.violated, res.error_text[:3000]))
+        n = 0
+        for line in open(emit):
+            rec = json.loads(line)
+            n += 1
+            T, conv, mode, dev = rec["T"], rec["conv"], rec["mode"], set(rec["dev"])
+            if M.markup_chars(T, conv, mode, dev) != rec["chars"]:
+                raise MachineryError("markup transcription disagrees with TLC for %s" % json.dumps(rec)[:800])
+            if dev:
+                continue
+            con = M.MarkupConcrete(n % 3 if conv == "html" else 0)
+            pages, objs = M.build_direct(T, con)
+            scale, margin = ((1, 50), (0.5, 7))[n % 2] if conv == "html" else (1, 50)
+            try:
+                real = M.run_markup(pages, conv, mode, scale=scale, pagemargin=margin)
+            except Exception as e:  # noqa: BLE001
+                ext(ck, "%s:exception:%s" % (conv, type(e).__name__))
+                continue
+            con.nums = M.WordBoxes(M.render_nums(T, objs, conv, scale=scale, pagemargin=margin), T, objs)
+            devs = M.HTML_DEVS if conv == "html" else M.HOCR_DEVS
+            Treal, _ = C.project(pages)
+            classify_markup(ck, seen, conv, real, lambda d: con.text(M.markup_chars(T, conv, mode, d)), devs,
+                            "%s (%s) of tree %s" % (conv, mode, "/".join(x["k"] for x in T)))
+            markup_predicates(ck, conv, mode, real, Treal)
+            n_replayed += 1
+            ck.replayed += 1
+            ck.case(1, ("markup", json.dumps(T), conv, mode))
+        os.remove(emit)
+        if n != res.emitted or n == 0:
+            raise MachineryError("emitted %d terminal states but read %d" % (res.emitted, n))
+    ck.extra["markup_trees_replayed"] = n_replayed
+
+
+def markup_documents(ck, seen):
+    """the generated hostile documents through extract_text_to_fp(html | hocr) against the transcription applied to the
+    hierarchy of the same bytes"""
+    from pdfminer.high_level import extract_text_to_fp
+    from ..realise import markup_real as M
+    rng = random.Random(ck.seed)
+    strings = hostile_strings(ck.tier, rng)
+    parts = [strings[i:i + 10] for i in range(0, len(strings), 10)]
+    if ck.tier == "quick":
+        parts = parts[:2] + parts[-1:]
+    ndoc = 0
+    for part in parts:
+        data = C.hostile_doc(part)
+        ndoc += 1
+        for conv, lakey, mode, scale in (("html", "default", "normal", 1), ("html", "none", "normal", 0.5), ("html", "all_texts", "exact", 1),
+                                         ("html", "default", "loose", 2), ("hocr", "all_texts", "normal", 1), ("hocr", "default", "normal", 1)):
+            fp = io.StringIO()
+            try:
+                extract_text_to_fp(io.BytesIO(data), fp, output_type=conv, codec=None, laparams=C.LAPARAMS[lakey](), layoutmode=mode, scale=scale)
+            except Exception as e:  # noqa: BLE001
+                ext(ck, "%s:exception:%s" % (conv, type(e).__name__))
+                ext_note(ck, seen, "%s:exception" % conv, "extract_text_to_fp(%s) raised %r" % (conv, e))
+                continue
+            real = fp.getvalue()
+            pages = C.pages_of(data, C.LAPARAMS[lakey]())
+            Tp, objs = C.project(pages)
+            Tm = M.with_keys(C.model_tree_of(Tp), objs)
+            con = M.MarkupConcrete(0)
+            con.nums = M.WordBoxes(M.render_nums(Tp, objs, conv, scale=scale), Tp, objs)
+            devs = M.HTML_DEVS if conv == "html" else M.HOCR_DEVS
+            classify_markup(ck, seen, conv, real, lambda d: con.text(M.markup_chars(Tm, conv, mode, d)), devs,
+                            "%s (%s, LAParams %s) of the generated document with %r" % (conv, mode, lakey, part[0]))
+            markup_predicates(ck, conv, mode, real, Tp)
+            ck.case(1, ("markup-pdf", ndoc, conv, lakey, mode))
+    ck.extra["markup_documents"] = ndoc
+
+
+def tla_token(tk):
+    """a transcription token as MarkupConverters.tla numbers it"""
+    if tk <= -3000000000:
+        v = -tk - 3000000000
+        f, ij = v % 20, v // 20
+        return 2000000 + 20 * (100 * (ij // 10000000) + (ij % 10000000)) + f
+    return tk
+
+
+def markup_traces(ck, seen):
+    """recorded HTMLConverter / HOCRConverter runs over sample pages, validated by TLC against MarkupTrace.tla"""
+    from pdfminer.converter import HOCRConverter, HTMLConverter
+    from pdfminer.high_level import extract_text_to_fp
+    from ..realise import markup_real as M
+    rng = random.Random(ck.seed + 1)
+    files = sorted(glob.glob("/repo/samples/**/*.pdf", recursive=True))
+    files = [f for f in files if "encryption" not in f and os.path.getsize(f) < 400_000]
+    pick = rng.sample(files, min(4 if ck.tier == "quick" else 14, len(files)))
+    traces = []
+    for fn in pick:
+        origin = os.path.relpath(fn, "/repo")
+        for conv, cls, lakey in (("html", HTMLConverter, "default"), ("hocr", HOCRConverter, "all_texts")):
+            fp = io.StringIO()
+            try:
+                with Recorder(cls) as rec, open(fn, "rb") as f:
+                    extract_text_to_fp(f, fp, output_type=conv, codec=None, laparams=C.LAPARAMS[lakey](), maxpages=1)
+            except Exception:  # noqa: BLE001
+                continue
+            if not rec.pages:
+                continue
+            real = fp.getvalue()
+            Tp, objs = C.project(rec.pages)
+            if len(Tp) > (1500 if ck.tier == "quick" else 4000):
+                continue
+            Tm = M.with_keys([dict(n, s=C.encode_trace(n["s"]), f=C.encode_trace(n["f"])) for n in Tp], objs)
+            # size classes: the identities the converters compare, as small integers
+            ids = {}
+            for n in Tm:
+                if n["k"] == "char":
+                    key = n["fk"] if conv == "html" else n["wk"]
+                    n["a"] = ids.setdefault(key, len(ids))
+            con = M.MarkupConcrete(0)
+            con.nums = M.WordBoxes(M.render_nums(Tp, objs, conv), Tp, objs)
+            devs = M.HTML_DEVS if conv == "html" else M.HOCR_DEVS
+            markup_predicates(ck, conv, "normal", real, Tp)
+            state = classify_markup(ck, seen, conv, real, lambda d: con.text(M.markup_chars(Tm, conv, "normal", d)), devs,
+                                    "%s of %s" % (conv, origin))
+            ck.case(1, ("markup-sample", origin, conv))
+            # the recording in the specification's alphabet: each token of the as-coded stream whose concrete form is at the cursor
+            toks = M.markup_chars(Tm, conv, "normal", devs)
+            out, pos = [], 0
+            for tk in toks:
+                cs = con.ch(tk)
+                if real.startswith(cs, pos):
+                    out.append(tla_token(tk))
+                    pos += len(cs)
+                else:
+                    out += [1000 + ord(ch) for ch in real[pos:pos + 40]]
+                    break
+            if conv == "hocr":
+                # the trace machine's word key: size class + 2 * parent; make `a` carry the whole identity within a line
+                pass
+            traces.append({"conv": conv, "mode": "normal", "origin": origin,
+                           "T": [{"k": n["k"], "d": n["d"], "s": n["s"], "f": n["f"], "a": n["a"] if n["k"] == "char" else 0} for n in Tm], "out": out})
+    if not traces:
+        return
+    tf = os.path.join(ck.tmp, "c11_markup_traces.json")
+    accepted = 0
+    for conv, devs in (("html", M.HTML_DEVS), ("hocr", M.HOCR_DEVS)):
+        todo = [t for t in traces if t["conv"] == conv]
+        if not todo:
+            continue
+        with open(tf, "w") as f:
+            json.dump(todo, f)
+        cfg = write_cfg(os.path.join(ck.tmp, "c11_markup_trace_%s.cfg" % conv),
+                        constants={"MaxNodes": 1, "Strings": "{}", "Kinds": "{}", "DevChoices": "{}", "Convs": "{}", "Modes": "{}",
+                                   "ParseOutput": "FALSE", "Dev": tla_set(devs)},
+                        init="TraceInit", next="TraceNext", invariants=["TraceMatches", "WholeMatches"])
+        res = run_tlc(MARKUP_TRACE_SPEC, cfg, workers=4, env={"TRACE_FILE": tf}, timeout=1800, heap="8g")
+        ck.add_tlc(res, "trace validation of %d recorded %s runs" % (len(todo), conv))
+        if res.ok:
+            accepted += len(todo)
+        else:
+            st = res.error_trace[-1][1] if res.error_trace else {}
+            ext(ck, "%s:trace-rejected" % conv)
+            ext_note(ck, seen, "%s:trace-rejected" % conv, "recorded %s run is not a behaviour of MarkupConverters.tla (%s; trace %s, node %s)"
+                     % (conv, res.violated, st.get("hs"), st.get("i")))
+    ck.traces += accepted
+    ck.extra["markup_traces"] = len(traces)
+    # vacuity: a corrupted recording must be rejected
+    bad = json.loads(json.dumps([min(traces, key=lambda t: len(t["out"]))]))
+    bad[0]["out"][len(bad[0]["out"]) // 2] = 1000 + 0x2603
+    with open(tf, "w") as f:
+        json.dump(bad, f)
+    devs = M.HTML_DEVS if bad[0]["conv"] == "html" else M.HOCR_DEVS
+    cfg = write_cfg(os.path.join(ck.tmp, "c11_markup_trace_bad.cfg"),
+                    constants={"MaxNodes": 1, "Strings": "{}", "Kinds": "{}", "DevChoices": "{}", "Convs": "{}", "Modes": "{}",
+                               "ParseOutput": "FALSE", "Dev": tla_set(devs)},
+                    init="TraceInit", next="TraceNext", invariants=["TraceMatches", "WholeMatches"])
+    res = run_tlc(MARKUP_TRACE_SPEC, cfg, workers=1, env={"TRACE_FILE": tf}, timeout=600)
+    if res.ok:
+        raise MachineryError("vacuous markup trace validation: a corrupted recording was accepted")
+    ck.extra["markup_corrupted_trace_rejected"] = True
+
+
+def direction_tag(ck, seen):
+    from pdfminer.utils import make_compat_str
+    from ..realise import markup_real as M
+    mod = "RunT"
+    wrapper = os.path.join(ck.tmp, mod + ".tla")
+    with open(wrapper, "w") as f:
+        f.write('---- MODULE %s ----\nEXTENDS MC_TagExtract\nTheDevs == {{}, %s}\n====\n' % (mod, tla_set(M.TAG_DEVS)))
+    maxops, strings = (3, "TPalette") if ck.tier == "quick" else (4, "TPalette")
+    cfg = write_cfg(os.path.join(ck.tmp, mod + ".cfg"), constants={"MaxOps": maxops, "MaxDepth": 2, "Strings": "<- " + strings, "DevChoices": "<- TheDevs"},
+                    invariants=["TagWellFormed", "TagStackEmpty", "TagTextFaithful", "TagElementsMatch", "StackIsOpenTags"], constraints=["EmitTerminal"])
+    emit = os.path.join(ck.tmp, mod + ".ndjson")
+    res = run_tlc(wrapper, cfg, emit=emit, timeout=3600, lib=os.path.join(SPECS, "conv"), env=JVM)
+    ck.add_tlc(res, "TagExtract: programs of <= %d operations, depth <= 2, %s" % (maxops, strings))
+    if not res.ok:
+        raise MachineryError("TagExtract.tla violates %s on the intended design:\n%s" % (res.violated, res.error_text[:3000]))
+    progs = []
+    n = 0
+    for line in open(emit):
+        rec = json.loads(line)
+        n += 1
+        if M.tag_chars(rec["prog"], set(rec["dev"])) != rec["chars"]:
+            raise MachineryError("tag transcription disagrees with TLC for %s" % json.dumps(rec)[:600])
+        if not rec["dev"]:
+            progs.append(rec["prog"])
+    os.remove(emit)
+    if n != res.emitted or n == 0:
+        raise MachineryError("emitted %d terminal states but read %d" % (res.emitted, n))
+    rng = random.Random(ck.seed)
+    limit = 1500 if ck.tier == "quick" else 20000
+    if len(progs) > limit:
+        progs = rng.sample(progs, limit)
+    con = M.TagConcrete(0)
+    con.nums = {C.numkey(0, C.F_BBOX): "0.000,0.000,200.000,200.000", C.numkey(0, C.F_ROTATE): "0"}
+    done = 0
+    for i in range(0, len(progs), 150):
+        chunk = progs[i:i + 150]
+        try:
+            real = M.run_tag(M.tag_doc(chunk, con))
+        except Exception as e:  # noqa: BLE001
+            ext(ck, "tag:exception:%s" % type(e).__name__)
+            ext_note(ck, seen, "tag:exception", "TagExtractor raised %r on a balanced program" % e)
+            continue
+        frags = [x + "</page>\n" for x in real.split("</page>\n")[:-1]]
+        if len(frags) != len(chunk):
+            ext(ck, "tag:page-count")
+            continue
+        for pno, (prog, frag) in enumerate(zip(chunk, frags)):
+            con.nums[C.numkey(0, C.F_ID)] = "%d" % pno
+            # property values go through make_compat_str, which guesses a character set for byte strings
+            guess = [con.text(op["pv"]) for op in prog if op["o"] in ("BDC", "DP") and op["pv"]
+                     and make_compat_str(con.text(op["pv"]).encode("ascii")) != con.text(op["pv"])]
+            if guess:
+                ext(ck, "tag:property-value-charset-guess")
+                ext_note(ck, seen, "tag:property-value-charset-guess", "make_compat_str reads the property value %r as %r"
+                         % (guess[0], make_compat_str(guess[0].encode("ascii"))))
+                continue
+            classify_markup(ck, seen, "tag", frag, lambda d: con.text(M.tag_chars(prog, d)), M.TAG_DEVS,
+                            "marked content %s" % " ".join(op["o"] for op in prog))
+            bad, text = M.read_tag_page(frag)
+            if bad:
+                ext(ck, "tag:not-well-formed")
+            elif M.nospace(text) != M.nospace("".join(con.text(op["pv"]) for op in prog if op["o"] == "Tj")):
+                ext(ck, "tag:text-differs")
+            done += 1
+            ck.replayed += 1
+            ck.case(1, ("tag", json.dumps(prog)))
+    ck.extra["tag_programs_replayed"] = done
+    # TagExtractor over the samples: every page fragment read by expat (tags balance for balanced input)
+    from pdfminer.high_level import extract_text_to_fp
+    files = sorted(glob.glob("/repo/samples/**/*.pdf", recursive=True))
+    files = [f for f in files if "encryption" not in f and os.path.getsize(f) < 1_000_000]
+    pages = 0
+    for fn in (files if ck.tier == "thorough" else rng.sample(files, min(8, len(files)))):
+        fp = io.BytesIO()
+        try:
+            with open(fn, "rb") as f:
+                extract_text_to_fp(f, fp, output_type="tag", codec="utf-8", maxpages=3)
+        except AssertionError:
+            ext(ck, "tag:sample-unbalanced-EMC")
+            continue
+        except Exception as e:  # noqa: BLE001
+            ext(ck, "tag:sample-exception:%s" % type(e).__name__)
+            continue
+        for frag in fp.getvalue().decode("utf-8", "replace").split("</page>\n")[:-1]:
+            pages += 1
+            bad, _ = M.read_tag_page(frag + "</page>\n")
+            if bad:
+                ext(ck, "tag:sample-page-not-well-formed")
+                ext_note(ck, seen, "tag:sample-page-not-well-formed", "TagExtractor output for a page of %s is not well-formed: %s"
+                         % (os.path.relpath(fn, "/repo"), bad))
+    ck.extra["tag_sample_pages"] = pages
+
+
+def direction_extended(ck):
+    seen = set()
+    direction_markup(ck, seen)
+    markup_documents(ck, seen)
+    markup_traces(ck, seen)
+    direction_tag(ck, seen)
+
+
 def run(ck):
     dev = active("conv")
     unknown = [d for d in dev if d not in C.ALLDEVS]
@@ -778,7 +1144,8 @@ def run(ck):
     t0 = time.time()
     phases = {}
     for name, fn in (("teeth", lambda: teeth(ck)), ("model_replay", lambda: direction_a_model(ck, dev, judge)),
-                     ("generated_pdfs", lambda: direction_a_pdf(ck, dev, judge)), ("sample_traces", lambda: direction_b(ck, dev, judge))):
+                     ("generated_pdfs", lambda: direction_a_pdf(ck, dev, judge)), ("sample_traces", lambda: direction_b(ck, dev, judge)),
+                     ("extended_coverage", lambda: direction_extended(ck))):
         fn()
         phases[name] = round(time.time() - t0, 1)
         t0 = time.time()
